@@ -103,7 +103,7 @@ def parse_kani(out):
     # covers are counted per distinct description: a cover inside a const-generic case is
     # instantiated once per case and need only be reachable in one of them
     cov = {}
-    for m in re.finditer(r"Check \d+: (\S+)\n\s+- Status: (\w+)\n\s+- Description: \"(.*?)\"\n", out):
+    for m in re.finditer(r"Check \d+: ([^\n]+)\n\s+- Status: (\w+)\n\s+- Description: \"(.*?)\"\n", out):
         if ".cover." in m.group(1):
             cov[m.group(3)] = cov.get(m.group(3), False) or m.group(2) == "SATISFIED"
     if cov:
